@@ -816,7 +816,9 @@ class DirectProxyAccessor(WritableAccessor[T_co], PhysicalAccessor[T_co]):
         except ValueError:
             parent_index = len(elmlist._parent._element)
         loader = elmlist._model._loader
-        if value._element.getparent() is not None:
+        with contextlib.suppress(ValueError):
+            # not part of any fragment, e.g. below an element that was
+            # removed from the model just before
             loader.idcache_remove(value._element)
         elmlist._parent._element.insert(parent_index, value._element)
         loader.idcache_index(value._element)
@@ -1924,7 +1926,9 @@ class RoleTagAccessor(WritableAccessor, PhysicalAccessor):
         except ValueError:
             parent_index = len(elmlist._parent._element)
         loader = elmlist._model._loader
-        if value._element.getparent() is not None:
+        with contextlib.suppress(ValueError):
+            # not part of any fragment, e.g. below an element that was
+            # removed from the model just before
             loader.idcache_remove(value._element)
         elmlist._parent._element.insert(parent_index, value._element)
         loader.idcache_index(value._element)
